@@ -27,6 +27,7 @@ CATALOGUE = {
     "R15": "a function-local `const X: T = E;` becomes `let X: T = E;`",
     "R16": "a local variable named like a Verus built-in type (`int`, `nat`) is renamed",
     "R17": "the tail expression E of a function becomes `let vx_ret = E; vx_ret`",
+    "R18": "`let X = loop { .. break E; .. };` becomes an Option accumulator assigned before a plain `break`",
     "D4": "statement slicing: a floating-point / BigInt / unverifiable tail or binding is replaced by a call of an uncontracted (or explicitly assumed-contract) external function of the same free variables",
 }
 
@@ -756,6 +757,53 @@ def r_var_opassign(sig, body, arg):
     return sig, body, n
 
 
+def r_slice_binding(sig, body, arg):
+    """D4: `let NAME = <floating-point / unverifiable expression>;` becomes `let NAME = REPL;` where REPL
+    is a call of an external function of the same free variables.  arg = "NAME => REPL"."""
+    from . import extract as X
+    name, _, repl = arg.partition("=>")
+    name, repl = name.strip(), repl.strip()
+    m = re.search(r"let\s+(?:mut\s+)?%s\b[^=]*=\s*" % re.escape(name), body)
+    if not m:
+        return sig, body, 0
+    masked = X.mask(body)
+    depth = 0
+    k = m.end()
+    while k < len(body):
+        ch = masked[k]
+        if ch in "([{":
+            depth += 1
+        elif ch in ")]}":
+            depth -= 1
+        elif ch == ";" and depth == 0:
+            break
+        k += 1
+    return sig, body[:m.end()] + repl + body[k:], 1
+
+
+def r_loop_break_value(sig, body, arg):
+    """R18: `let NAME = loop { .. break E; .. };` (Verus has no break-with-value) becomes
+    `let mut vx_brk_NAME = None; loop { .. vx_brk_NAME = Some(E); break; .. } let NAME = vx_brk_NAME.unwrap();`"""
+    from . import extract as X
+    name, _, ty = arg.strip().partition(" ")
+    ty = ty.strip()
+    m = re.search(r"let\s+%s\s*=\s*loop\s*\{" % re.escape(name), body)
+    if not m:
+        return sig, body, 0
+    bo = m.end() - 1
+    bc = X.match_brace(X.mask(body), bo)
+    inner = body[bo + 1:bc]
+    # only breaks that belong to this loop: the slice has no nested loop left at this point
+    inner, n = re.subn(r"\bbreak\s+([^;]+);", r"vx_brk_%s = Some(\1); break;" % name, inner)
+    if n == 0:
+        return sig, body, 0
+    tail = body[bc + 1:]
+    tail = re.sub(r"^\s*;", "", tail, count=1)
+    decl = "let mut vx_brk_%s%s = None;" % (name, (": Option<%s>" % ty) if ty else "")
+    new = (decl + "\n    loop {" + inner + "}\n    let %s = vx_brk_%s.unwrap();" % (name, name))
+    return sig, body[:m.start()] + new + tail, 1
+
+
 RULES = {
     "Self": r_self,
     "Generic": r_generic,
@@ -786,6 +834,8 @@ RULES = {
     "FloatScale63": r_float_scale63,
     "ForInSlice": r_for_in_slice,
     "VarOpAssign": r_var_opassign,
+    "SliceBinding": r_slice_binding,
+    "LoopBreakValue": r_loop_break_value,
 }
 RULE_IDS = {"Self": "R1", "Generic": "R1", "BoolAssign": "R2", "ForUnderscore": "R3",
             "BitVecIndex": "R6"}
